@@ -170,7 +170,7 @@ macro_rules! constr_cmp {
             assert!((a == b) == (want == Ordering::Equal), "Constr equality agrees with cmp and ignores Def/Indef and the tag encoding");
             kani::cover!(ta == 102 && tb == 1400 && idx(ta, ca) == idx(tb, cb), "general form 102 names the same constructor as a compact tag");
             kani::cover!(ta == 127 && tb == 1280 && got == Ordering::Less, "121..127 range sorts before 1280..1400");
-            kani::cover!(idx(ta, ca) == idx(tb, cb) && got != Ordering::Equal, "same constructor, fields decide");
+            kani::cover!(($la == 0 && $lb == 0) || (idx(ta, ca) == idx(tb, cb) && got != Ordering::Equal), "same constructor, fields decide (not applicable when both field lists are empty)");
             core::mem::forget(a);
             core::mem::forget(b);
         }
